@@ -15,7 +15,7 @@ import collections
 import socket as realsocket
 
 from pymemcache.client.hash import HashClient
-from pymemcache.exceptions import MemcacheError
+from pymemcache.exceptions import MemcacheError, MemcacheServerError
 
 from vmc import runner, simnet, stacks
 from vmc.ref.placement import rendezvous
@@ -25,6 +25,7 @@ PROPERTY = "C13"
 LEVEL = "model_checking"
 RT, DT = 1, 6  # retry_timeout < dead_timeout; dead_timeout spans several retry gaps so that one retry too many shows
 CLAMP = DT + 1
+ITEM_MAX = 64  # the simulated servers refuse larger values with SERVER_ERROR object too large for cache
 ADVANCES = (1, 2, 7)  # <= retry_timeout, > retry_timeout, > dead_timeout
 RULE = (
     "BFS over HashClient histories (events: op on a key owned by server i; advance 1/2/7 with retry_timeout=1, "
@@ -55,22 +56,23 @@ def servers(n):
 
 def owned_keys(n):
     """One key per server such that the reference rule places it there in the full rotation,
-    and a second key per server for the multi-key operations."""
+    a second key per server for the multi-key operations, and a third for the refused oversized set."""
     names = ["%s:%s" % s for s in servers(n)]
     out = {i: [] for i in range(n)}
     j = 0
-    while any(len(v) < 2 for v in out.values()):
+    while any(len(v) < 3 for v in out.values()):
         k = "k%d" % j
         j += 1
         i = names.index(rendezvous(names, k))
-        if len(out[i]) < 2:
+        if len(out[i]) < 3:
             out[i].append(k)
     return out
 
 
 def event_menu(n, tier):
     # get/set/delete share one code path (_run_cmd); get_many and set_many have their own
-    ops = ["get", "get_many", "set_many"] + (["set", "delete"] if tier != "quick" else [])
+    # set_big: a value the (healthy) server refuses with SERVER_ERROR - a per-request error, not a server failure
+    ops = ["get", "get_many", "set_many", "set_big"] + (["set", "delete"] if tier != "quick" else [])
     ev = []
     for i in range(n):
         for o in ops:
@@ -96,9 +98,10 @@ class World:
         self.names = ["%s:%s" % s for s in self.srvs]
         self.net = stacks.new_net(None, servers=self.srvs)
         self.keys = owned_keys(n)
-        allkeys = [k for ks in self.keys.values() for k in ks]
+        allkeys = [k for ks in self.keys.values() for k in ks[:2]]
         pre = b"".join(b"set " + k.encode() + b" 0 0 1\r\nv\r\n" for k in allkeys)
         for srv in self.net.servers.values():
+            srv.item_max = ITEM_MAX
             for it in parse_all(pre)[0]:
                 srv.execute(it)
         specs = [h if i == 0 else "%s:%s" % (h, p) for i, (h, p) in enumerate(self.srvs)] if strings else self.srvs
@@ -174,7 +177,7 @@ class World:
         n, ra, ie, mode = self.cfg
         self.ncall += 1
         net.call = self.ncall
-        k1, k2 = self.keys[i]
+        k1, k2, k3 = self.keys[i]
         rot0 = set(map(str, hc.hasher.nodes))
         failed0 = set(hc._failed_clients)
         dead0 = set(hc._dead_clients)
@@ -192,6 +195,8 @@ class World:
                 res = ("ret", hc.get_many([k1, k2]))
             elif name == "set_many":
                 res = ("ret", hc.set_many({k1: b"v", k2: b"v"}, noreply=False))
+            elif name == "set_big":
+                res = ("ret", hc.set(k3, b"x" * (ITEM_MAX + 1), noreply=False))
         except Exception as e:
             res = ("exc", e)
         events = net.events[ev0:]
@@ -216,6 +221,8 @@ class World:
                 bad.append(("exception-escapes-ignore_exc", f"{desc} raised {e!r} although ignore_exc is set"))
             elif isinstance(e, OSError):
                 pass  # the failing server's own error
+            elif name == "set_big" and isinstance(e, MemcacheServerError) and "too large" in str(e):
+                pass  # the server's own refusal of this one request
             elif isinstance(e, MemcacheError) and "All servers seem to be down" in str(e):
                 pass
             else:
@@ -253,7 +260,7 @@ class World:
                             f"(contacted: {touched})"))
             elif res[0] != "ret" or (name == "get" and res[1] != b"v") or (name == "set" and res[1] is not True) \
                     or (name == "get_many" and res[1] != {k1: b"v", k2: b"v"}) or (name == "set_many" and res[1] != []):
-                if not (name == "delete"):
+                if name not in ("delete", "set_big"):
                     bad.append(("healthy-owner-wrong-result", f"{desc}: owner never failed, result {res!r}"))
         # M4: while the owner is out of rotation, its keys are served by the servers in rotation
         # (any contacted server must have been in the rotation at the moment the key was routed)
